@@ -229,7 +229,7 @@ void drive(const ShapeDesc& sd, RunCtl& ctl, RunState& rs, const std::function<v
     };
     const std::string want = real_sum();
     const int want_ctx = w.root_signals > 0 ? w.root_ctx : -1;
-    bool ctx_only_mismatch = false; int ctx_expected = -1;
+    bool ctx_only_mismatch = false; int ctx_expected = -1; int plain_ctx = -1; bool first_candidate = true;
     auto try_candidate = [&](int nid, int mode, int occ, std::string* got) {
       Model mm(sd, plan.spec);
       mm.node_arg = plan.node_arg; mm.cand_nid = nid; mm.cand_mode = mode; mm.cand_occ = occ;
@@ -242,6 +242,7 @@ void drive(const ShapeDesc& sd, RunCtl& ctl, RunState& rs, const std::function<v
       if (!mm.pending().empty() && w.pending.empty()) return false;
       if (mm.unspecified) return true;   // the documents leave this situation open (when_any under a receiver stop)
       std::string ms = model_sum(mm);
+      if (first_candidate) { first_candidate = false; plain_ctx = mm.done ? mm.result_ctx : -1; }
       if (got) *got = ms;
       if (ms != want) return false;
       // same outcome: the completion context must be the documented one too (C11: via / typed_via / on deliver on their scheduler on every path)
@@ -275,7 +276,12 @@ void drive(const ShapeDesc& sd, RunCtl& ctl, RunState& rs, const std::function<v
       }
     }
     vk::ctx().label(w.fault_fired ? "anonymous-fault-explained-by-model" : "anonymous-fault-not-reached(plain model)");
-    if (!ok && ctx_only_mismatch)
+    // via / typed_via at the root: whatever happens below, the result is delivered by the schedule() operation, i.e. on the scheduler's context
+    const NodeDesc& rootn = sd.nodes[sd.root];
+    const bool root_hops = rootn.kind == K_VIA || rootn.kind == K_TYPED_VIA;
+    if (!ok && !ctx_only_mismatch && vk::ctx().prop == "C11" && root_hops && w.root_signals > 0 && want_ctx != rootn.a)
+      SR_FAIL("C11", "fault_completion_context", "an injected throw (%s, throw point #%ld) fired below %s(..., ctx%d); the result [%s] was delivered on ctx%d, not on the scheduler's context [%s]", w.fault_site, plan.anon_fault, kind_name(rootn.kind), rootn.a, want.c_str(), want_ctx, sd.text);
+    else if (!ok && ctx_only_mismatch)
       SR_FAIL("C11", "fault_completion_context", "an injected throw (%s, throw point #%ld) fired; the result [%s] is the documented one but it was delivered on ctx%d, the documented behaviour delivers it on ctx%d [%s]", w.fault_site, plan.anon_fault, want.c_str(), want_ctx, ctx_expected, sd.text);
     else if (!ok) SR_FAIL("C05", "fault_outcome_unexplained", "an injected throw (%s, throw point #%ld) %s; the run ended as [%s]; no single place at which that failure is reported through set_error explains it (without any fault the documented behaviour is [%s]) [%s]",
                      w.fault_site, plan.anon_fault, w.fault_fired ? "fired" : "was planned but not reached", want.c_str(), plain.c_str(), sd.text);
